@@ -195,5 +195,73 @@ func properties() map[string]Property {
 		Assumes: []string{floatAssume, heapAssume, solverAssume, "isCollinear summarised by its exact cross product (lemma job in the same check; triSign(1) site excluded)", "paths with sloped edges are outside these jobs"},
 		Jobs:    c06}
 
+	// ---- C11 ------------------------------------------------------------
+	var c11 []Job
+	shapeText := []string{"horizontal 2-point segment", "vertical 2-point segment", "L: horizontal then vertical", "L: vertical then horizontal", "three collinear horizontal points in any order"}
+	for sh := int64(0); sh <= 4; sh++ {
+		c11 = append(c11, Job{Harness: "H_C11_lines", Args: []int64{sh}, Tier: "quick", Covers: []string{"C11.done"}, TimeoutMs: 60000,
+			Bounds: "clip rectangle with 4 symbolic sides x open axis-parallel polyline (" + shapeText[sh] + ") with symbolic coordinates in [-2^29, 2^29]; a symbolic point on each input segment decides coverage"})
+	}
+	ps["C11"] = Property{ID: "C11", Level: "model_checking",
+		Explain: "RectClipLinesPaths64 executed on every feasible path of the family: vertices inside the rectangle and on the input line, pieces not closed up, and for a symbolic point of the input line more than 2 units from the rectangle boundary: covered by the result iff inside the rectangle",
+		Assumes: []string{floatAssume, heapAssume, solverAssume, "sloped segments and polylines of more than 3 points are outside these jobs"},
+		Jobs:    c11}
+
+	// ---- C03 ------------------------------------------------------------
+	var c03 []Job
+	ops := [][]int64{{1, 1}, {2, 0}, {3, 2}, {4, 3}, {0, 0}, {5, 4}}
+	for sshape := int64(0); sshape <= 10; sshape++ {
+		for _, cshape := range []int64{-1, -2, 100} {
+			for oi, op := range ops {
+				cs := cshape
+				if cs == 100 {
+					cs = sshape
+				}
+				tier := "thorough"
+				if cshape == -1 && (oi == int(sshape)%4 || oi >= 4) {
+					tier = "quick"
+				}
+				j := Job{Harness: "H_C03_bool", Args: []int64{sshape, cs, op[0], op[1]}, Tier: tier,
+					Bounds: "degenerate subject shape (0..10: empty set, empty path, 1/2 points, collinear, repeated point, zero-area, coincident, repeated vertices) with coordinates symbolic in [-64,64]; clip: -1 symbolic rectangle, -2 nil, else the same degenerate shape; clip type value 0..5 and fill rule value 0..4 as given"}
+				if op[0] != 0 {
+					j.Covers = []string{"C03.bool.done"}
+				} else {
+					j.Excuses = []string{"C03.noclip"}
+				}
+				c03 = append(c03, j)
+			}
+		}
+		for oi, op := range ops {
+			tier := "thorough"
+			if oi == int(sshape)%3 {
+				tier = "quick"
+			}
+			j := Job{Harness: "H_C03_open", Args: []int64{sshape, op[0], op[1]}, Tier: tier,
+				Bounds: "the same degenerate shapes as open subject paths against a symbolic clip rectangle"}
+			if op[0] != 0 {
+				j.Covers = []string{"C03.open.done"}
+			} else {
+				j.Excuses = []string{"C03.noclip"}
+			}
+			c03 = append(c03, j)
+		}
+		slowTier := "quick"
+		if sshape == 4 || sshape == 5 || sshape >= 9 {
+			slowTier = "thorough"
+		}
+		c03 = append(c03, Job{Harness: "H_C03_rect", Args: []int64{sshape}, Tier: slowTier, Covers: []string{"C03.rect.done"},
+			Bounds: "RectClipPaths64/Path64/LinesPaths64/LinesPath64 on the degenerate shapes with a rectangle whose 4 sides are unconstrained (empty and inverted rectangles included), coordinates in [-64,64]"})
+		c03 = append(c03, Job{Harness: "H_C03_util", Args: []int64{sshape}, Tier: slowTier, Covers: []string{"C03.util.done"}, Merge: []string{"isCollinear"},
+			Bounds: "Area64, IsPositive64, GetBounds64, PointInPolygon, StripDuplicates, TrimCollinear64, SimplifyPath64(s), Translate, ReversePath, Path2ContainsPath1 on the degenerate shapes"})
+	}
+	for _, a := range [][]int64{{0, 0, 1}, {2, 2, 1}, {2, 3, 0}, {3, 3, 1}, {6, 4, 1}, {4, 5, 0}, {10, 2, 1}, {10, 3, 0}, {1, 10, 1}} {
+		c03 = append(c03, Job{Harness: "H_C03_mink", Args: a, Tier: "quick", Covers: []string{"C03.mink.done"},
+			Bounds: "MinkowskiSum64/Diff64 with degenerate pattern and path shapes, coordinates in [-32,32]"})
+	}
+	ps["C03"] = Property{ID: "C03", Level: "model_checking",
+		Explain: "every exported 64-bit entry point executed on degenerate input families with symbolic coordinates; a panic on any feasible path, a failed Execute or an exhausted loop/step budget is a violation once it reproduces natively (panics are caught by the harness and asserted absent)",
+		Assumes: []string{floatAssume, heapAssume, solverAssume, "offset entry points are exercised under C05/C10, the floating-point API's precision panic under C07"},
+		Jobs:    c03}
+
 	return ps
 }
